@@ -39,9 +39,11 @@ def expect(ver, text):
 def run(ctx):
     rng = ctx.rng
     cases = []
+    seeds = [("2", s) for s in core.v2_low_family()[::7]]
     for _ in range(ctx.n(4000, 80000)):
         ver = rng.choice("234")
-        s = core.rand_vector(ver, rng, p_absent=rng.choice([0.3, 0.8]))
+        seeds.append((ver, core.rand_vector(ver, rng, p_absent=rng.choice([0.3, 0.8]))))
+    for ver, s in seeds:
         o, e = obs.construct(ver, s)
         if o is None:
             ctx.violation("v%s:valid-vector-rejected" % ver, "accepted vector rejected", s, "accepted", e, replay={"ver": ver, "text": "0.0/" + s})
@@ -52,9 +54,11 @@ def run(ctx):
             ctx.violation("v%s:accessor-raised" % ver, "accessor raised", s, None, repr(ex), replay={"ver": ver, "text": "0.0/" + s})
             continue
         ctx.count()
-        if rh != "%.1f/%s" % (base, clean):
+        t10 = int(round(abs(base) * 10))
+        want_rh = "%d.%d/%s" % (t10 // 10, t10 % 10, clean)
+        if rh != want_rh:
             ctx.violation("v%s:rh-format" % ver, "rh_vector() is not <base score with one decimal>/<clean vector>", s,
-                          "%.1f/%s" % (base, clean), rh, replay={"ver": ver, "text": rh, "roundtrip": s})
+                          want_rh, rh, replay={"ver": ver, "text": rh, "roundtrip": s})
         try:
             back = core.impl().cls[ver].from_rh_vector(rh)
             if not (back == o) or back.scores() != o.scores():
@@ -107,7 +111,8 @@ def replay(data):
     if r.get("roundtrip"):
         o, _ = obs.construct(r["ver"], r["roundtrip"])
         rh = o.rh_vector()
-        ok = ok and rh == "%.1f/%s" % (o.scores()[0], o.clean_vector())
+        t10 = int(round(abs(o.scores()[0]) * 10))
+        ok = ok and rh == "%d.%d/%s" % (t10 // 10, t10 % 10, o.clean_vector())
         try:
             ok = ok and core.impl().cls[r["ver"]].from_rh_vector(rh) == o
         except Exception:  # noqa
